@@ -516,7 +516,11 @@ def layoutPostMerge(font):
 
             t.table.LookupList.LookupCount = len(t.table.LookupList.Lookup)
 
-            if GDEF and GDEF.table.Version >= 0x00010002:
+            if (
+                GDEF
+                and GDEF.table.Version >= 0x00010002
+                and GDEF.table.MarkGlyphSetsDef
+            ):
                 markFilteringSetMap = NonhashableDict(
                     GDEF.table.MarkGlyphSetsDef.Coverage
                 )
